@@ -5,6 +5,7 @@
 //   - service (svc.go, cases whose first op is OSvc): the manager is the TimerMgr of a real
 //     runservice.StandardRunService, its owner is the service's loop goroutine with its whole
 //     life cycle (created, started, busy, stopped by itself or by a foreign goroutine, ended).
+//
 // Timers use real millisecond durations; no hooks.
 //
 // Bare world.
@@ -39,7 +40,7 @@ const (
 )
 
 type cbRec struct {
-	k, n                                 int64
+	k, n                                int64
 	argsOK, early, afterCancel, onOwner bool
 }
 
@@ -81,8 +82,7 @@ type world struct {
 	decoyGid  uint64 // the decoy service's loop goroutine (mu)
 	decoyRuns int64
 	ctl       *controller // the task the loop is parked in (nil: not parked)
-	seen      int         // queue entries already reported by a Wait
-	racers    bool        // a timer was cancelled while armed: its expiry may be in the queue
+	inq       map[int]int // queue entries per timer already reported by a wait
 	inStop    bool
 	closing   bool
 }
@@ -152,7 +152,6 @@ func (w *world) cancel(k int64) {
 	case ti.expect:
 		w.tag("cancel-armed")
 		w.nontriv = true
-		w.racers = true
 	default:
 		w.tag("cancel-after-done")
 	}
@@ -189,6 +188,9 @@ func (w *world) callback(k int, args []interface{}) {
 	w.mu.Unlock()
 	w.nontriv = true
 	ti.queued = false
+	if w.svcMode {
+		ti.expect = false // delivered (possibly while the loop was running: never seen in the queue)
+	}
 	if ti.count > 1 {
 		w.tag("repeat-fired-again")
 	}
@@ -317,15 +319,16 @@ func recsTerm(rs []cbRec) hx.T {
 	return hx.C("BRan", l)
 }
 
-func waitTerm(n int64, rs []cbRec) hx.T {
-	return hx.C("BWait", n, recsTerm(rs).Args[0])
+func waitTerm(got []int64, rs []cbRec) hx.T {
+	return hx.C("BWait", got, recsTerm(rs).Args[0])
 }
 
 // Exec runs one op list against a fresh real Mgr.  Bare world: on the calling goroutine (the
 // owner).  Service world (first op OSvc): the calling goroutine is the driver, the owner is the
 // loop of the case's StandardRunService.
 func Exec(ops []hx.T) (obs []any, nontrivial bool, tags []string) {
-	w := &world{byID: map[timer.IdType]int{}, gid: goid(), inCb: -1, tags: map[string]bool{}, life: lifeUp}
+	w := &world{byID: map[timer.IdType]int{}, gid: goid(), inCb: -1, tags: map[string]bool{}, life: lifeUp,
+		inq: map[int]int{}}
 	if len(ops) > 0 && ops[0].Name == "OSvc" {
 		w.newService()
 	} else {
